@@ -3,6 +3,7 @@
 
 mod bits;
 mod common;
+mod decode;
 mod field;
 mod frame;
 mod replay;
@@ -17,6 +18,8 @@ fn main() {
         std::process::exit(replay::replay(&ctx, p));
     }
     let (rep, meta) = match ctx.prop.as_str() {
+        "C01" => decode::c01a(&ctx),
+        "C02" => decode::c02(&ctx),
         "C07" => bits::c07(&ctx),
         "C08" => field::c08(&ctx),
         "C11" => field::c11(&ctx),
